@@ -129,16 +129,23 @@ def write_text(path, inp, missing_token="-999", row_order=None, col_order=None, 
     return path
 
 
-def write_netcdf(path, inp, missing="nan", with_location_var=True, with_latlon=True, with_altitude=True):
-    """Write the abstract input in the documented NetCDF layout. missing: nan | fill | -999 | big | masked"""
+def write_netcdf(path, inp, missing="nan", with_location_var=True, with_latlon=True, with_altitude=True, nc_format="NETCDF4",
+                 pad_time=False):
+    """Write the abstract input in the documented NetCDF layout. missing: nan | fill | -999 | big | masked.
+    nc_format: any on-disk flavour netCDF4 writes.  pad_time: the (integer) time variable gets one more, UNWRITTEN entry at the end --
+    a missing coordinate, not an initialisation time -- and the data variables hold ordinary numbers in that slot."""
     import netCDF4
-    f = netCDF4.Dataset(path, "w", format="NETCDF4")
+    f = netCDF4.Dataset(path, "w", format=nc_format)
     nt, nl, ns = len(inp["times"]), len(inp["leads"]), len(inp["locs"])
-    f.createDimension("time", None)
+    f.createDimension("time", None if not pad_time else nt + 1)
     f.createDimension("leadtime", nl)
     f.createDimension("location", ns)
-    v = f.createVariable("time", "f8", ("time",))
-    v[:] = np.array(inp["times"], float)
+    if pad_time:
+        v = f.createVariable("time", "i4", ("time",))
+        v[0:nt] = np.array(inp["times"], int)
+    else:
+        v = f.createVariable("time", "f8", ("time",))
+        v[:] = np.array(inp["times"], float)
     v = f.createVariable("leadtime", "f4", ("leadtime",))
     v[:] = np.array([num(x) for x in inp["leads"]], float)
     if with_location_var:
@@ -157,6 +164,8 @@ def write_netcdf(path, inp, missing="nan", with_location_var=True, with_latlon=T
         dims = ("time", "leadtime", "location") + ((extra_dim,) if extra_dim else ())
         shape = (nt, nl, ns) + ((extra_n,) if extra_dim else ())
         arr = np.array([num(x) for x in flat], float).reshape(shape)
+        if pad_time:
+            arr = np.concatenate([arr, np.full((1,) + shape[1:], 40.0)], axis=0)
         kw = {}
         if missing in ("fill", "masked"):
             kw["fill_value"] = -1e9 if missing == "fill" else None
